@@ -270,6 +270,11 @@ Proof.
   apply (keys_distinct_sub lower gen_import_pool import_pool_keys_distinct); assumption.
 Qed.
 
+(* stage A obligation: _create_schemas retries every failed component (Retry.round queues every node that is not ready; finality is decided by
+   a round without progress only) *)
+Theorem create_retry_is_unconditional : gen_create_retry_unconditional = true.
+Proof. vm_compute. reflexivity. Qed.
+
 Theorem all_loops_sorted_if_fixed : known_fixed gen_loops = true -> forallb loop_ok gen_loops = true.
 Proof. apply ok_or_known_fixed. exact all_loops_sorted_except_known. Qed.
 
